@@ -42,6 +42,11 @@ def finding_key(req, obs, detail):
             # TypeRegistry::register_type: one defect, the message names the offending inner layer
             msg = "<non-scalar layer> inside vector/matrix"
         return "panic %s: %s" % (path, msg)
+    if (detail or "").startswith("FAIL:redeclared-defaults:"):
+        # one defect (check_existing_functions hands back the first declaration's id and parse_function drops the later
+        # signature with its non_default_params); the oracle gives this detail only when the verdict is exactly the one
+        # of the first declaration's default arguments and passes every other judgement under that reading
+        return "redeclared default arguments: only the first declaration's default values count"
     f = req.split("\t")
     if f[0] == "C16.resolve" and len(f) in (3, 4):
         # the finding is about the candidate *set* and the arguments, not about one declaration order
@@ -213,7 +218,18 @@ def search(ctx):
             d.insert(place, "o~%d~%s" % (sc, k))
             syms.append("C16.seq\t%s|c~%d~%s~" % ("|".join(d), sc, x))
     step2 = max(1, len(syms) // 3000)
-    return suspicious + syms[::step2] + seqs[::step] + rest[:6000]
+    # one function declared twice with other default arguments, next to an overload that takes the shorter list
+    redecl = []
+    n = 0
+    for a, b in itertools.permutations(params[:len(tys)], 2):
+        for x in args:
+            n += 1
+            first, later = ((2, 1), (1, 2), (2, 0), (0, 2))[n % 4]
+            kind = "pr"[n % 2]
+            redecl.append("C16.seq\td~0~0:%d:%s,%s|d~0~1:1:%s|%s~0~%d|c~0~%s~" % (first, a, b, b, kind, later, x))
+            redecl.append("C16.seq\td~0~0:%d:%s,%s|%s~0~%d|c~0~%s~|c~0~%s,%s~" % (first, a, b, kind, later, x, x, x))
+    step3 = max(1, len(redecl) // 2000)
+    return suspicious + redecl[::step3] + syms[::step2] + seqs[::step] + rest[:6000]
 
 
 SPEC = {
@@ -250,6 +266,9 @@ SPEC = {
         # symbols of the same name that are not functions: the gathering loop of find_identifier_in_scope
         "gathering_ignores_non_function_symbols", "non_function_symbol_changes_no_candidate",
         "same_name_symbols_take_no_candidate_away", "inner_type_hides_outer_overloads",
+        # a function declared more than once with other default arguments: what the code does (for all units), and the
+        # witness that this is order dependent (negation of the property for the declarations of one function)
+        "first_declaration_fixes_the_defaults", "redeclared_defaults_are_order_dependent",
         # the source text of the transcribed routines, re-extracted each run
         "resolve_shape_as_modelled", "resolution_reads_no_call_history", "resolve_source_as_transcribed"]],
     "harness": "c16",
